@@ -250,7 +250,7 @@ static const char* _jbl_parse_js_key(const char **key, const char *p, JCTX *ctx)
   return 0;
 }
 
-static const char* _jbl_parse_json_key(const char **key, const char *p, JCTX *ctx) {
+static const char* _jbl_parse_json_key(const char **key, int *klen, const char *p, JCTX *ctx) {
   char c;
   while ((c = *p++)) {
     if (c == '"') {
@@ -277,6 +277,7 @@ static const char* _jbl_parse_json_key(const char **key, const char *p, JCTX *ct
         }
         kptr[len] = '\0';
         *key = kptr;
+        *klen = len; // the key may contain \u0000: strlen() would truncate it
       }
 
       while (*p && IS_WHITESPACE(*p)) p++;
@@ -412,8 +413,9 @@ static const char* _jbl_parse_value(
         ++p;
         while (1) {
           const char *nkey = 0;
+          int nklen = -1;
           if (!ctx->js) {
-            p = _jbl_parse_json_key(&nkey, p, ctx);
+            p = _jbl_parse_json_key(&nkey, &nklen, p, ctx);
           } else {
             p = _jbl_parse_js_key(&nkey, p, ctx);
           }
@@ -423,7 +425,7 @@ static const char* _jbl_parse_value(
           if (*p == '}') {
             return p + 1;              // -V522
           }
-          p = _jbl_parse_value(ctx, lvl + 1, node, nkey, nkey ? (int) strlen(nkey) : 0, p);
+          p = _jbl_parse_value(ctx, lvl + 1, node, nkey, nkey ? (nklen >= 0 ? nklen : (int) strlen(nkey)) : 0, p);
           if (ctx->rc) {
             return 0;
           }
